@@ -598,6 +598,112 @@ def r4_retry(program, rep, B):
               construct="entry timeout/callback", node=B.store)
 
 
+def r3_closures(program, rep):
+    """A function object made inside a loop and kept for later (queued,
+    stored) does not read variables that the loop re-binds: a closure sees
+    the variable, not the value it had when the closure was made, so every
+    queued callback would act on the last reply / command of the loop."""
+    fn = program.get(FN)
+    inst = qual(fn)
+    n_seen = 0
+    for lam in ast.walk(fn):
+        if not isinstance(lam, (ast.Lambda, ast.FunctionDef)) or lam is fn:
+            continue
+        loops = []
+        p_ = getattr(lam, "_parent", None)
+        while p_ is not None and p_ is not fn:
+            if isinstance(p_, (ast.For, ast.While)):
+                loops.append(p_)
+            if isinstance(p_, (ast.FunctionDef, ast.Lambda)):
+                loops = None            # nested deeper: judged there
+                break
+            p_ = getattr(p_, "_parent", None)
+        if not loops:
+            continue
+        # kept for later?  (an argument of a call other than a direct call
+        # of the function itself, or the value of a store)
+        KEEP = ("append", "appendleft", "add", "put", "put_nowait",
+                "insert", "extend", "setdefault", "push")
+
+        def stored(e):
+            """Is expression ``e`` put into a container / attribute?"""
+            par = getattr(e, "_parent", None)
+            if isinstance(par, (ast.Tuple, ast.List)):
+                return stored(par)
+            if isinstance(par, ast.Call) and par.func is not e and \
+                    isinstance(par.func, ast.Attribute) and \
+                    par.func.attr in KEEP:
+                return True
+            if isinstance(par, ast.Assign) and par.value is e and any(
+                    isinstance(t_, (ast.Subscript, ast.Attribute))
+                    for t_ in par.targets):
+                return True
+            return False
+        if isinstance(lam, ast.FunctionDef):
+            # a local def: kept when its name is put somewhere
+            kept = any(isinstance(n_, ast.Name) and n_.id == lam.name and
+                       isinstance(n_.ctx, ast.Load) and stored(n_)
+                       for lp_ in loops for n_ in ast.walk(lp_))
+        else:
+            kept = stored(lam)
+            par = getattr(lam, "_parent", None)
+            if not kept and isinstance(par, ast.Assign) and \
+                    len(par.targets) == 1 and \
+                    isinstance(par.targets[0], ast.Name):
+                nm_ = par.targets[0].id
+                kept = any(isinstance(n_, ast.Name) and n_.id == nm_ and
+                           isinstance(n_.ctx, ast.Load) and stored(n_)
+                           for lp_ in loops for n_ in ast.walk(lp_))
+        if not kept:
+            continue
+        a = lam.args
+        own = set(x.arg for x in a.posonlyargs + a.args + a.kwonlyargs)
+        if a.vararg:
+            own.add(a.vararg.arg)
+        if a.kwarg:
+            own.add(a.kwarg.arg)
+        body = lam.body if isinstance(lam.body, list) else [lam.body]
+        loaded = set(n_.id for b_ in body for n_ in ast.walk(b_)
+                     if isinstance(n_, ast.Name) and
+                     isinstance(n_.ctx, ast.Load))
+        stored_in = set(n_.id for b_ in body for n_ in ast.walk(b_)
+                        if isinstance(n_, ast.Name) and
+                        isinstance(n_.ctx, ast.Store))
+        free = loaded - own - stored_in
+        rebound = set()
+        for lp in loops:
+            for n_ in ast.walk(lp):
+                if isinstance(n_, ast.Name) and isinstance(
+                        n_.ctx, ast.Store) and not _within(n_, lam):
+                    rebound.add(n_.id)
+        n_seen += 1
+        late = sorted(free & rebound)
+        rep.check(not late, "C06-R3", inst, "a function kept for later in "
+                  "the burst loop reads no variable the loop re-binds",
+                  construct="closure in loop", node=lam,
+                  fail="a function object created in the burst loop and "
+                       "kept for later reads %s, which the loop assigns "
+                       "again before the function is called: every queued "
+                       "call acts on the last value (the wrong reply goes "
+                       "to the wrong command's callback)" % ", ".join(late))
+    if n_seen == 0:
+        rep.check(True, "C06-R3", inst, "no function object is created in "
+                  "the burst loop and kept for later",
+                  construct="closure in loop", node=fn)
+
+
+def _within(node, anc):
+    n = node
+    while n is not None:
+        if n is anc:
+            return True
+        n = getattr(n, "_parent", None)
+    return False
+
+
+r3_closures.helper_aware = True
+
+
 def check(program, rep):
     fn = program.get(FN)
     inst = qual(fn)
@@ -610,6 +716,7 @@ def check(program, rep):
         rep.guard("C06-R2", r2_fresh, program, rep, B, folder)
         rep.guard("C06-R3", r3_once, program, rep, B)
         rep.guard("C06-R4", r4_retry, program, rep, B)
+    rep.guard("C06-R3", r3_closures, program, rep)
     rep.guard(["C06-R5", "C06-R6"], r5_codes, program, rep, folder, fn, fl,
               cfg, inst)
     rep.floor("C06-R1", 3)
